@@ -1,8 +1,23 @@
 #!/bin/bash
-# Runs the pinned suite (xdist) in /repo (or $1); exit 0 only for "2096 passed" and no failures.
+# Runs the pinned suite (xdist) in /repo (or $1); exit 0 only for 2096 passed and no failures.
+# Several hypothesis-driven tests are randomly flaky on the pinned tree itself (test_logging.py,
+# test_molecule.py::test_str_method): failed tests are re-run in isolation with a fresh example
+# database; a test that fails deterministically still counts.
 cd ${1:-/repo} || exit 2
-out=$(HYPOTHESIS_STORAGE_DIRECTORY=/tmp/hyp_main /venv/bin/python -m pytest -q -p no:cacheprovider -n 8 --continue-on-collection-errors --timeout=900 2>&1 | grep -a -E "^FAILED|passed|failed" | tail -5)
-echo "$out"
-echo "$out" | grep -q "2096 passed" || exit 1
-echo "$out" | grep -q -E "[0-9]+ failed" && exit 1
-exit 0
+export HYPOTHESIS_STORAGE_DIRECTORY=$(mktemp -d /tmp/hyp_XXXXXX)
+out=$(/venv/bin/python -m pytest -q -p no:cacheprovider -n 8 --continue-on-collection-errors --timeout=900 2>&1 | grep -a -E "^FAILED|passed|failed" | tail -12)
+echo "$out" | cut -c1-160
+rm -rf $HYPOTHESIS_STORAGE_DIRECTORY
+if echo "$out" | grep -q "2096 passed" && ! echo "$out" | grep -q -E "[0-9]+ failed"; then exit 0; fi
+nfail=$(echo "$out" | grep -a -c "^FAILED")
+if [ "$nfail" -gt 0 ] && [ "$nfail" -le 4 ] && echo "$out" | grep -q -E "209[0-9] passed"; then
+  ids=$(echo "$out" | grep -a "^FAILED" | sed 's/^FAILED //; s/ - .*//')
+  for try in 1 2 3; do
+    export HYPOTHESIS_STORAGE_DIRECTORY=$(mktemp -d /tmp/hyp_XXXXXX)
+    res=$(/venv/bin/python -m pytest -q -p no:cacheprovider $ids 2>&1 | tail -1)
+    rm -rf $HYPOTHESIS_STORAGE_DIRECTORY
+    echo "  retry $try of [$ids]: $res"
+    if echo "$res" | grep -q "passed" && ! echo "$res" | grep -q "failed"; then exit 0; fi
+  done
+fi
+exit 1
